@@ -7,7 +7,8 @@ Import ListNotations.
 From MP Require Import Base Cond Cond_proofs.
 Local Open Scope Z_scope.
 
-(* Once a tile is in the cache, repeated requests receive identical validators and bodies until it is rewritten:
+(* Once a tile is in the cache, repeated requests receive identical validators and bodies until it is rewritten
+   (touches k: Rewrite, Remove or a Refresh = request under an expiry rule that calls tile k stale):
    for every history of requests (any service, any tile, any conditional headers, any upstream behaviour) and of
    rewrites / removals of OTHER tiles, tile k keeps its entry e, and every answer to a request for k carries the
    ETag and Last-Modified of e, never no-store, and is either 200 with the stored bytes or 304 with no body. *)
@@ -141,3 +142,40 @@ Theorem modern_dates_read_as_written :
     1970 <= y <= 9999 -> 1 <= mo <= 12 ->
     parse_httpdate (ImsDate y mo d hh mi ss) = PSome (timegm y mo d hh mi ss).
 Proof. exact parse_modern. Qed.
+
+(* Requests that find the stored tile stale (refresh rule, single-tile path): when the source answers, the tile is
+   stored again ... *)
+Theorem refresh_stores_again :
+  forall h tps max_age st svc k inm ims body now size stored e,
+    lookup st k = Some e ->
+    lookup (fst (step h tps max_age st (Refresh svc k inm ims (UOk body now size stored)))) k = Some stored.
+Proof. exact step_refresh_stores. Qed.
+
+(* ... when the source fails with an uncached fill image the answer is no-store and the old entry stays ... *)
+Theorem refresh_uncacheable_no_store :
+  forall h tps max_age st svc k inm ims body e,
+    lookup st k = Some e ->
+    step h tps max_age st (Refresh svc k inm ims (UFill body)) = (st, Some (Resp (nostore_resp body))).
+Proof. exact step_refresh_fill. Qed.
+
+(* ... and (since the repair of C20-L3) the refreshing request answers for the NEW content: its answer is the one a
+   creating request gives, with the validators of (now, size) ... *)
+Theorem refresh_answer_is_fresh_answer :
+  forall h tps max_age st svc k inm ims body now size stored e,
+    lookup st k = Some e ->
+    step h tps max_age st (Refresh svc k inm ims (UOk body now size stored))
+    = (update st k stored,
+       Some (make_conditional tps
+               (full_resp h tps max_age {| ti_cacheable := true; ti_ts := Some now; ti_size := Some size |} body) inm ims)).
+Proof. exact step_refresh_answer. Qed.
+
+(* ... so it is 304 only if If-None-Match is the ETag of what it has just stamped or If-Modified-Since is not before
+   that time: the validators of the replaced tile no longer produce 304 (was refresh_answer_sound_refuted). *)
+Theorem refresh_answer_sound :
+  forall h tps max_age st svc k inm ims body now size stored e st' r,
+    lookup st k = Some e ->
+    step h tps max_age st (Refresh svc k inm ims (UOk body now size stored)) = (st', Some (Resp r)) ->
+    r_status r = 304 ->
+    inm = Some (etag_of h {| ti_cacheable := true; ti_ts := Some now; ti_size := Some size |}) \/
+    exists t, st_ticks now <> 0 /\ parse_httpdate ims = PSome t /\ st_ticks now <= t * tps.
+Proof. exact refresh_answer_sound_304. Qed.
